@@ -1304,7 +1304,7 @@ fn big_middle_text_cases(ctx: &mut Ctx) {
     // DISJOINT middles (nothing in common, so even the quadratic table of LCS stays empty and cheap) of 3 300 x 3 300 lines
     // (> 10^7 cells; thorough: 10 001 x 10 001 > 10^8 for LCS) between a shared head and tail: whatever an algorithm does
     // above some table / work size must still report the shared ends
-    let sizes: &[usize] = if ctx.tier == Tier::Quick { &[3300] } else { &[3300, 10_001] };
+    let sizes: &[usize] = if ctx.tier == Tier::Quick { &[3300, 6000] } else { &[3300, 6000, 10_001] };
     for &m in sizes {
         let mid_old: String = (0..m).map(|i| format!("o{}\n", i)).collect();
         let mid_new: String = (0..m + 7).map(|i| format!("n{}\n", i)).collect();
